@@ -161,6 +161,10 @@ class Stepper:
                 else:
                     separate_into_sections(pattern=self.pattern, independent=op['independent'])
                 self.ready = True
+                # work registered for "before the next section starts" (what @phase functions and graders use) still belongs to the
+                # section that is active when it runs
+                self.hook_seen = []
+                self.report.add_hook('source.next_section.before', lambda *a, **k: self.hook_seen.append(self.report.submission.main_code))
                 sections = self.report['source']['sections']
                 if ''.join(sections) != self.text:
                     viol.append(V('C17|split-lossy', 'sections do not concatenate back to the file: %r vs %r' % (''.join(sections)[-80:], self.text[-80:])))
@@ -168,9 +172,15 @@ class Stepper:
                 self.check_active(viol, 'after separate_into_sections')
             elif kind == 'next_section':
                 before_fb = len([f for f in self.report.feedback if f.label == 'not_enough_sections'])
+                leaving, _ = self.active_reference()
+                seen_before = len(getattr(self, 'hook_seen', []))
                 self.section += 1
                 try:
                     next_section()
+                    seen = getattr(self, 'hook_seen', [])
+                    if leaving is not None and len(seen) == seen_before + 1 and seen[-1] != leaving:
+                        viol.append(V('C17|presented-code|before-hook|%s' % self.mode(), 'a source.next_section.before hook saw %r as the program, the section being left is %r'
+                                      % (seen[-1][:80], leaving[:80])))
                 except Exception as e:
                     tb = traceback.extract_tb(e.__traceback__)[-1]
                     first = 'first' if self.section == len(self.chunks) else 'later'
